@@ -138,11 +138,17 @@ def ev_of(line):
     return line[i + 6:j]
 
 
-def filter_trace(src, dst, keep, transform=None):
-    """Project a full trace onto the event kinds a monitor reads.  Returns (lines, runs)."""
+def filter_trace(src, dst, keep, transform=None, chunk=20000):
+    """Project a full trace onto the event kinds a monitor reads and split it into chunks of at most
+    `chunk` lines at run boundaries (TLC's trace validation is linear up to a few tens of thousands
+    of lines per JVM).  Returns (lines, runs, [chunk files])."""
     n = 0
     runs = 0
-    with open(src) as f, open(dst, "w") as o:
+    files = []
+    cur = None
+    cur_n = 0
+    k = 0
+    with open(src) as f:
         for line in f:
             ev = ev_of(line)
             if ev in keep:
@@ -150,11 +156,22 @@ def filter_trace(src, dst, keep, transform=None):
                     line = transform(ev, line)
                     if line is None:
                         continue
-                o.write(line)
+                if cur is None or (ev == "Reset" and cur_n >= chunk):
+                    if cur:
+                        cur.close()
+                    name = dst.replace(".ndjson", ".c%d.ndjson" % k)
+                    k += 1
+                    cur = open(name, "w")
+                    files.append(name)
+                    cur_n = 0
+                cur.write(line)
+                cur_n += 1
                 n += 1
                 if ev == "Reset":
                     runs += 1
-    return n, runs
+    if cur:
+        cur.close()
+    return n, runs, files
 
 
 # -------------------------------------------------------------------------------------------- TLC
